@@ -1,11 +1,14 @@
 """Ambient interpreter state that a library call may read but must hand back as it found it, also while one of its
 generators is suspended: the thread's decimal context, the recursion limit, the working directory, the default socket
-timeout, the locale, the identity of sys.stdout / sys.stderr, the warnings filter list."""
+timeout, the locale, the identity of sys.stdout / sys.stderr, the warnings filter list, urllib.parse's scheme tables,
+sys.path, the environment, the root logger, the int/str conversion limit."""
 import decimal
 import locale
+import logging
 import os
 import socket
 import sys
+import urllib.parse
 import warnings
 
 
@@ -18,7 +21,21 @@ def snapshot():
         "recursionlimit": sys.getrecursionlimit(), "cwd": os.getcwd(), "socket.defaulttimeout": socket.getdefaulttimeout(),
         "locale": locale.setlocale(locale.LC_ALL), "stdout": id(sys.stdout), "stderr": id(sys.stderr),
         "warnings.filters": len(warnings.filters), "switchinterval": sys.getswitchinterval(),
+        # tables of the standard library that every user of it in the process shares
+        "urllib.parse.uses_relative": tuple(urllib.parse.uses_relative), "urllib.parse.uses_netloc": tuple(urllib.parse.uses_netloc),
+        "urllib.parse.uses_params": tuple(urllib.parse.uses_params), "urllib.parse.uses_query": tuple(urllib.parse.uses_query),
+        "urllib.parse.uses_fragment": tuple(urllib.parse.uses_fragment), "urllib.parse.non_hierarchical": tuple(urllib.parse.non_hierarchical),
+        "sys.path": tuple(sys.path), "os.environ": hash(tuple(sorted(os.environ.items()))),
+        "logging.root": (logging.root.level, len(logging.root.handlers)), "sys.flags": tuple(sys.flags),
+        "float_repr_style": sys.float_repr_style, "int_max_str_digits": sys.get_int_max_str_digits(),
     }
+
+
+def quick():
+    """The cheap part (what a suspended generator could plausibly hold): for use after every single step."""
+    c = decimal.getcontext()
+    return (c.prec, c.rounding, c.Emin, c.Emax, sys.getrecursionlimit(), len(urllib.parse.uses_relative), len(urllib.parse.uses_netloc),
+            len(warnings.filters), id(sys.stdout), id(sys.stderr), socket.getdefaulttimeout())
 
 
 def diff(a, b):
